@@ -89,8 +89,9 @@ def s1_s2_s3_execute(ctx):
             ctx.undecided('C05.S3', 'consideration = round(price x quantity) to the whole currency unit', fe.site,
                           'computed by %s, which was not read through' % fmt(unread_calls(got_cons)[0][1])[:80])
         else:
+            from ..lib import read_marker
             ctx.require(T.teq(got_cons, cons), 'C05.S3', 'consideration = round(price x quantity) to the whole currency unit', fe.site,
-                        'consideration=%s' % fmt(got_cons)[:160], key='C05.S3|consideration')
+                        '%sthe fee is charged on %s [%s]' % (read_marker(ctx, p), fmt(got_cons)[:160], cond_str(p)[:80]), key='C05.S3|consideration')
         ok = fe.args.get('asset') == A(order, 'asset') and fe.args.get('quantity') == A(order, 'quantity') and fe.args.get('broker') == V('self')
         ctx.require(ok, 'C05.S3', 'the fee model receives (asset, quantity, consideration, broker) in the interface\'s order', fe.site,
                     {k: fmt(v)[:50] for k, v in fe.args.items()}, key='C05.S3|fee-args')
